@@ -3575,7 +3575,7 @@ MODULES = {
         "types": ["FastSet", "FastSetIterator"],
         "consts": [],
         "functions": [("FastSet", None, f) for f in ("new", "card", "contains", "insert", "remove", "reset", "iter")]
-                     + [("FastSetIterator", "Iterator", "next")],
+                     + [("FastSetIterator", "Iterator", "next"), ("FastSet", "Display", "fmt")],
     },
     "BfsQueueGen": {
         "files": ["bfs_queues.rs"],
